@@ -82,7 +82,7 @@ def run(prop_id, cfg, res, seed, timeout=420):
             log = (e.stdout or b'').decode() if isinstance(e.stdout, bytes) else (e.stdout or '')
             log += '\nTIMEOUT after %ds' % timeout
         # per-harness status from the (possibly partial) log: "Thread k: Checking harness X..." ... "Thread k: " + result block
-        status_of = {}; cur = {}; last_thread = None
+        status_of = {}; cur = {}; last_thread = None; failed_checks = {}
         for line in log.split('\n'):
             m = re.match(r'(?:Thread (\d+): )?Checking harness (\S+?)\.\.\.', line)
             if m:
@@ -90,9 +90,19 @@ def run(prop_id, cfg, res, seed, timeout=420):
             m = re.match(r'Thread (\d+):\s*$', line)
             if m:
                 last_thread = m.group(1); continue
+            m = re.match(r'Failed Checks: (.*)', line)
+            if m and last_thread in cur:
+                failed_checks.setdefault(cur[last_thread], []).append(m.group(1).strip()); continue
             m = re.match(r'VERIFICATION:- (\w+)', line)
             if m and last_thread in cur:
                 status_of[cur[last_thread]] = 'verified' if m.group(1) == 'SUCCESSFUL' else 'failed'
+        # CBMC's --nan-check / --float-overflow-check (on by default in Kani) flag the PRODUCTION of NaN / infinity by a float
+        # operation.  Neither is a panic or a property violation in Rust (FLOAT./ of inf by inf is NaN by IEEE 754): a harness that
+        # fails only those built-in checks has all of its own assertions proved.
+        benign = {}
+        for n, fc in failed_checks.items():
+            if status_of.get(n) == 'failed' and fc and all(re.match(r'(NaN on |arithmetic overflow on floating-point)', c) for c in fc):
+                status_of[n] = 'verified'; benign[n] = fc
         ran = set(cur.values())
         failed = set(n for n, st in status_of.items() if st == 'failed')
         compile_error = not ran
@@ -103,6 +113,7 @@ def run(prop_id, cfg, res, seed, timeout=420):
             else:
                 status = status_of.get(n, 'timeout')
             ent = dict(harness=n, what=WHAT.get(n, ''), status=status, bounded=bounded, back_end='Kani 0.68 / CBMC 6.11')
+            if n in benign: ent['ignored_builtin_float_checks'] = benign[n]
             (out['bounded'] if bounded else out['kani']).append(ent)
             if status == 'failed':
                 # counterexample: concrete playback of the failing harness
